@@ -71,10 +71,10 @@ func newC11Fake() *c11Fake {
 	return &c11Fake{
 		iterFailAfter: -1,
 		iterErr:       &c11Fault{"row iteration"},
-		connectErr:  &c11Fault{"connect"},
-		beginErr:    &c11Fault{"begin"},
-		commitErr:   &c11Fault{"commit"},
-		rollbackErr: &c11Fault{"rollback"},
+		connectErr:    &c11Fault{"connect"},
+		beginErr:      &c11Fault{"begin"},
+		commitErr:     &c11Fault{"commit"},
+		rollbackErr:   &c11Fault{"rollback"},
 	}
 }
 
@@ -277,10 +277,50 @@ type C11TxCase struct {
 	Stmts     []C11Stmt `json:"s,omitempty"`  // statements run by the body, in order
 	Out       string    `json:"o"`            // outcome of the body after its statements: nil | err | panic
 	PanicV    string    `json:"pv,omitempty"` // err | str | rt (runtime error)
+	BE        string    `json:"be,omitempty"` // the error value the body returns when o = err: "" errors.New | txdone | norows | conndone | badconn | canceled | deadline | eof | custom (own error type)
+	BW        bool      `json:"bw,omitempty"` // ... wrapped with fmt.Errorf("%w")
 	FBegin    string    `json:"fb,omitempty"` // "" | connect | begin
 	Log       string    `json:"lg,omitempty"` // package logging switches: "" both on | off (sqlx.DisableLog) | stmtoff (sqlx.DisableStmtLog)
 	FCommit   bool      `json:"fc,omitempty"`
 	FRollback bool      `json:"fr,omitempty"`
+}
+
+// C11BodyErrKinds are the error values a transaction body returns in the
+// cases: an opaque errors.New value, the database/sql, driver and context
+// sentinels a real body can propagate, io.EOF, and an error type of its own.
+var C11BodyErrKinds = []string{"", "txdone", "norows", "conndone", "badconn", "canceled", "deadline", "eof", "custom"}
+
+type c11CustomErr struct{ code int }
+
+func (e *c11CustomErr) Error() string { return fmt.Sprintf("c11 custom body error %d", e.code) }
+
+// c11BodyError builds the error value of kind k (wrapped with %w when w).
+func c11BodyError(k string, w bool) error {
+	var e error
+	switch k {
+	case "txdone":
+		e = sql.ErrTxDone
+	case "norows":
+		e = sql.ErrNoRows
+	case "conndone":
+		e = sql.ErrConnDone
+	case "badconn":
+		e = driver.ErrBadConn
+	case "canceled":
+		e = context.Canceled
+	case "deadline":
+		e = context.DeadlineExceeded
+	case "eof":
+		e = io.EOF
+	case "custom":
+		e = &c11CustomErr{code: 7}
+	default:
+		e = errors.New("c11 body error")
+	}
+	if w {
+		e = fmt.Errorf("c11 body: step failed: %w", e)
+	}
+	return e
 }
 
 // C11TxEntries are the entry points of the in-package unit.
@@ -319,6 +359,10 @@ func VerifC11GenTx(entries []string) func(rt *rapid.T) C11TxCase {
 		c.Out = rapid.SampledFrom([]string{"nil", "nil", "err", "panic"}).Draw(rt, "out")
 		if c.Out == "panic" {
 			c.PanicV = rapid.SampledFrom([]string{"err", "str", "rt"}).Draw(rt, "panicv")
+		}
+		if c.Out == "err" && rapid.IntRange(0, 3).Draw(rt, "plainbodyerr") != 0 {
+			c.BE = rapid.SampledFrom(C11BodyErrKinds).Draw(rt, "bodyerrkind")
+			c.BW = rapid.Bool().Draw(rt, "bodyerrwrapped")
 		}
 		switch rapid.IntRange(0, 19).Draw(rt, "fbegin") {
 		case 7:
@@ -457,7 +501,7 @@ func VerifC11InterpTx(c C11TxCase, run C11Runner) (v kit.Verdict) {
 	}
 
 	// ---- the body
-	bodyErr := errors.New("c11 body error")
+	bodyErr := c11BodyError(c.BE, c.BW)
 	runs := 0
 	var captured Session
 	queryWrong := ""
@@ -596,6 +640,16 @@ func VerifC11InterpTx(c C11TxCase, run C11Runner) (v kit.Verdict) {
 		v.NonTrivial = true
 	} else if runs > 0 {
 		classes = append(classes, "outcome:"+outcome)
+		if outcome == "err" && returned == bodyErr {
+			k := c.BE
+			if k == "" {
+				k = "plain"
+			}
+			if c.BW {
+				k += "/wrapped"
+			}
+			classes = append(classes, "body-error:"+k)
+		}
 		if !live {
 			classes = append(classes, ctxClass+"/outcome:"+outcome)
 			if ctxFailedStmt {
@@ -813,7 +867,8 @@ func TestVerif_C11_tx(t *testing.T) {
 // c11EnumerateTx yields every transaction case with at most maxStmts
 // statements under a live context: every entry point x every statement list
 // (kind x {ok, fault returned, fault ignored, fault turned into a panic}) x
-// every final outcome (nil, error, three panic values) x every Begin fault x
+// every final outcome (nil, error - with every body error value of C11BodyErrKinds, plain and
+// wrapped, for <= 1 statement -, three panic values) x every Begin fault x
 // Commit fault x Rollback fault x logging {on, DisableLog}; and, for the entry points that take a context
 // and at most maxCtxStmts statements, the same with every non-live context
 // state (cancelled before the call, deadline expired, cancelled by the body
@@ -841,19 +896,32 @@ func c11EnumerateTx(maxStmts, maxCtxStmts int) func(yield func(C11TxCase) bool) 
 			if cx == "" {
 				logs = []string{"", "off"}
 			}
+			type berr struct {
+				k string
+				w bool
+			}
 			for _, lg := range logs {
 				for _, e := range entries {
 					for _, o := range outs {
-						for _, fb := range []string{"", "begin", "connect"} {
-							if fb == "connect" && e == "newconn" {
-								continue
+						berrs := []berr{{"", false}}
+						if o.o == "err" && cx == "" && len(stmts) <= 1 {
+							berrs = nil
+							for _, k := range C11BodyErrKinds {
+								berrs = append(berrs, berr{k, false}, berr{k, true})
 							}
-							for _, fc := range []bool{false, true} {
-								for _, fr := range []bool{false, true} {
-									c := C11TxCase{Entry: e, Cx: cx, Stmts: append([]C11Stmt(nil), stmts...), Out: o.o, PanicV: o.pv,
-										FBegin: fb, FCommit: fc, FRollback: fr, Log: lg}
-									if !yield(c) {
-										return false
+						}
+						for _, be := range berrs {
+							for _, fb := range []string{"", "begin", "connect"} {
+								if fb == "connect" && e == "newconn" {
+									continue
+								}
+								for _, fc := range []bool{false, true} {
+									for _, fr := range []bool{false, true} {
+										c := C11TxCase{Entry: e, Cx: cx, Stmts: append([]C11Stmt(nil), stmts...), Out: o.o, PanicV: o.pv,
+											FBegin: fb, FCommit: fc, FRollback: fr, Log: lg, BE: be.k, BW: be.w}
+										if !yield(c) {
+											return false
+										}
 									}
 								}
 							}
@@ -945,7 +1013,8 @@ type C11RowsCase struct {
 	Fields  []C11Field `json:"f,omitempty"`
 	Cols    []C11Col   `json:"c"`
 	NRows   int        `json:"n"`
-	Shape   string     `json:"shape"` // generator's label (informational)
+	Shape   string     `json:"shape"`           // generator's label (informational)
+	Names   string     `json:"names,omitempty"` // generator's label of the spelling of tags / column names (informational; the names themselves are in f and c)
 }
 
 var c11LeafKinds = map[string]string{
@@ -1315,7 +1384,62 @@ func VerifC11GenRows(sessions []string) func(rt *rapid.T) C11RowsCase {
 				c.Cols[i].Z = []int{rapid.IntRange(0, c.NRows-1).Draw(rt, "nullrow")}
 			}
 		}
+		c11StyleNames(rt, &c, n)
 		return c
+	}
+}
+
+// c11NameStyles spell the i-th tag / column name. A column is always spelled
+// exactly like the tag it belongs to; whether names that differ only in case
+// denote the same column is not stated and never relied upon.
+var c11NameStyles = map[string]func(i int) string{
+	"lower":  func(i int) string { return fmt.Sprintf("c%d", i) },
+	"camel":  func(i int) string { return fmt.Sprintf("userId%d", i) },
+	"pascal": func(i int) string { return fmt.Sprintf("UserName%d", i) },
+	"upper":  func(i int) string { return fmt.Sprintf("ORDER_NO_%d", i) },
+	"digits": func(i int) string { return fmt.Sprintf("col_%d_v2X", i) },
+}
+
+// c11StyleNames re-spells the generated names c0..c<n-1> (tags and the
+// columns named after them) with mixed case; "casepair": the first two names
+// differ only in case (rowKey / rowkey), each column still carrying the exact
+// spelling of its tag.
+func c11StyleNames(rt *rapid.T, c *C11RowsCase, n int) {
+	styles := []string{"lower", "camel", "pascal", "upper", "digits"}
+	mode := rapid.SampledFrom([]string{"lower", "lower", "one", "one", "mixed", "mixed", "casepair"}).Draw(rt, "namemode")
+	names := map[string]string{}
+	one := rapid.SampledFrom(styles[1:]).Draw(rt, "namestyle")
+	for i := 0; i < n+2; i++ {
+		st := "lower"
+		switch mode {
+		case "one", "casepair":
+			st = one
+		case "mixed":
+			st = rapid.SampledFrom(styles).Draw(rt, "namestyle-i")
+		}
+		names[fmt.Sprintf("c%d", i)] = c11NameStyles[st](i)
+	}
+	if mode == "casepair" && n >= 2 {
+		names["c0"], names["c1"] = "rowKey", "rowkey"
+	}
+	c.Names = mode
+	if mode == "one" {
+		c.Names = one
+	}
+	var walk func(fs []C11Field)
+	walk = func(fs []C11Field) {
+		for i := range fs {
+			if nn, ok := names[fs[i].G]; ok {
+				fs[i].G = nn
+			}
+			walk(fs[i].E)
+		}
+	}
+	walk(c.Fields)
+	for i := range c.Cols {
+		if nn, ok := names[c.Cols[i].N]; ok {
+			c.Cols[i].N = nn
+		}
 	}
 }
 
@@ -1670,6 +1794,9 @@ func VerifC11InterpRows(c C11RowsCase, q C11Querier) (v kit.Verdict) {
 		mode = "pos"
 	}
 	classes["mode:"+mode] = true
+	if c.Names != "" {
+		classes["names:"+c.Names] = true
+	}
 	if hasEmb {
 		classes["embedded"] = true
 	}
@@ -1972,6 +2099,8 @@ type C11HistOp struct {
 	Out string `json:"o,omitempty"`   // tx: outcome of the body after its statement: nil | err | panic
 	FC  bool   `json:"fc,omitempty"`  // tx: the driver fails Commit
 	FR  bool   `json:"fr,omitempty"`  // tx: the driver fails Rollback
+	BE  string `json:"be,omitempty"`  // tx, o = err: body error value (see C11BodyErrKinds)
+	BW  bool   `json:"bw,omitempty"`  // ... wrapped with %w
 	Gap int    `json:"gap,omitempty"` // virtual milliseconds slept before the call
 }
 
@@ -2024,6 +2153,10 @@ func VerifC11GenHist(rt *rapid.T) C11HistCase {
 			op.Out = rapid.SampledFrom([]string{"nil", "nil", "nil", "err", "panic"}).Draw(rt, "out")
 			op.FC = rapid.IntRange(0, 5).Draw(rt, "fc") == 3
 			op.FR = rapid.IntRange(0, 5).Draw(rt, "fr") == 3
+			if op.Out == "err" && rapid.Bool().Draw(rt, "sentinel") {
+				op.BE = rapid.SampledFrom(C11BodyErrKinds).Draw(rt, "bodyerrkind")
+				op.BW = rapid.Bool().Draw(rt, "bodyerrwrapped")
+			}
 		}
 		switch rapid.IntRange(0, 19).Draw(rt, "gap") {
 		case 5:
@@ -2060,7 +2193,6 @@ func VerifC11InterpHist(t *testing.T, c C11HistCase, mk func(db *sql.DB) C11Hist
 		db := sql.OpenDB(c11Connector{f})
 		defer db.Close()
 		conn := mk(db)
-		bodyErr := errors.New("c11 body error")
 
 		for i, op := range c.Ops {
 			if op.Gap > 0 {
@@ -2100,6 +2232,7 @@ func VerifC11InterpHist(t *testing.T, c C11HistCase, mk func(db *sql.DB) C11Hist
 					outcome, returned = "err", e
 					return e
 				}
+				bodyErr := c11BodyError(op.BE, op.BW)
 				switch op.Out {
 				case "err":
 					outcome, returned = "err", bodyErr
